@@ -84,6 +84,7 @@ for pid, res, verdict in results:
     json.dump(meta, open(f"{dst}/meta.json", "w"), indent=1)
     if subprocess.run(f"git -C /repo apply --check {dst}/patch.diff", shell=True).returncode != 0:
         print(pid, "WARNING: patch does not apply to /repo")
-for pid in pids:
+done = {pid for pid, res, verdict in results if verdict != "no deliverables"}  # an agent without deliverables may still be working
+for pid in sorted(done):
     subprocess.run(f"git -C /repo worktree remove --force {root}/{pid}/wt", shell=True, stdout=subprocess.DEVNULL, stderr=subprocess.DEVNULL)
 subprocess.run("git -C /repo worktree prune", shell=True)
